@@ -96,6 +96,7 @@ fn main() {
             }
             let id = args[2].clone();
             let tier = parse_tier(&args[3]);
+            set_current_tier(tier);
             let seed: u64 = args[4].parse().unwrap_or(1);
             let shard: u64 = args[5].parse().unwrap_or(0);
             let only = args.get(6).cloned();
@@ -137,7 +138,8 @@ fn main() {
             let out = with_big_stack(move || {
                 let prop = props::get(&id).expect("property");
                 let sc = prop.subchecks.iter().find(|s| s.name == sub).expect("subcheck");
-                let mut ctx = Ctx::new(Tier::Quick, true);
+                let tier = if std::env::var("VERIF_TIER").map(|t| t == "thorough").unwrap_or(false) { Tier::Thorough } else { Tier::Quick };
+                let mut ctx = Ctx::new(tier, true);
                 match run_case(&mut ctx, sc, &input) {
                     CaseOutcome::Pass => format!("pass nontrivial={} labels={:?}", ctx.is_nontrivial(), ctx.labels.keys().collect::<Vec<_>>()),
                     CaseOutcome::Reject => "reject".to_string(),
@@ -164,7 +166,7 @@ fn replay_raw(file: &Path) -> String {
         Some(s) => s,
         None => return json!({"outcome": "unknown-subcheck"}).to_string(),
     };
-    let mut ctx = Ctx::new(Tier::Quick, true);
+    let mut ctx = Ctx::new(rf.tier, true);
     match run_case(&mut ctx, sc, &rf.input) {
         CaseOutcome::Pass => json!({"outcome": "pass"}).to_string(),
         CaseOutcome::Reject => json!({"outcome": "reject"}).to_string(),
@@ -251,6 +253,7 @@ fn list_json(dir: &Path) -> Vec<PathBuf> {
 
 fn supervise(id: &str, tier: Tier, seed: u64, only_sub: Option<String>) -> i32 {
     let t0 = Instant::now();
+    set_current_tier(tier);
     let prop = match props::get(id) {
         Some(p) => p,
         None => {
